@@ -334,9 +334,9 @@ AddVariant ==
     /\ phase = "build" /\ Len(d.variants) < MaxVariants
     /\ LET L == Layout(d) IN
        /\ Len(L) >= 1
-       /\ \E i \in 1..Len(L), i2 \in 0..Len(L), w \in 1..2, zero \in BOOLEAN :
-             LET a1 == [n |-> L[i].n, v |-> [c \in 1..Min2(w, L[i].w) |->
-                                                IF zero THEN 0 ELSE 800 + 8 * (10 * Len(d.variants) + c)]]
+       /\ \E i \in 1..Len(L), i2 \in 0..Len(L), w \in 1..3 :     \* w = 3: the whole parameter set to zeros
+             LET a1 == [n |-> L[i].n, v |-> [c \in 1..(IF w = 3 THEN L[i].w ELSE Min2(w, L[i].w)) |->
+                                                IF w = 3 THEN 0 ELSE 800 + 8 * (10 * Len(d.variants) + c)]]
                  a2 == IF i2 = 0 \/ i2 = i THEN <<>>
                        ELSE <<[n |-> L[i2].n, v |-> [c \in 1..L[i2].w |-> 1600 + 8 * c]]>> IN
              d' = [d EXCEPT !.variants = Append(@, [n |-> "v" \o ToString(Len(@)), set |-> <<a1>> \o a2])]
